@@ -1,0 +1,17 @@
+//go:build verif
+
+// Package verifhook re-exports the dependency-injection container for the external
+// verification harness (an external module cannot import internal/di).
+// Built only with -tags verif; adds no behaviour.
+package verifhook
+
+import (
+	"github.com/alpacahq/marketstore/v4/internal/di"
+	"github.com/alpacahq/marketstore/v4/utils"
+)
+
+// Container is the real startup container of cmd/start.
+type Container = di.Container
+
+// NewContainer wraps di.NewContainer.
+func NewContainer(cfg *utils.MktsConfig) *Container { return di.NewContainer(cfg) }
